@@ -1,14 +1,15 @@
-SPECIFICATION TSpec
+SPECIFICATION FairSpec
 CONSTANTS
   W = 2
   NOps = 2
   K = 1
   MaxFail = 0
-  NPhases = 1
+  NPhases = 2
   FixDrain = TRUE
   FixWorkerErr = TRUE
-  AllowStop = TRUE
+  AllowStop = FALSE
   AllowFault = TRUE
   AliveCheck = TRUE
-INVARIANT Report
+INVARIANT ProtocolOK
+PROPERTY Termination
 CHECK_DEADLOCK FALSE
